@@ -607,10 +607,13 @@ package server
 // ---------------------------------------------------------------- leader: one write (C07, C08)
 
 // write: only a leader appends; the entry gets the next offset of the quorum tracker and
-// the term read under the same lock.
+// the term read under the same lock; taking the offset and appending the entry to the log
+// happen in one critical section of the controller's mutex (structural obligation), so
+// concurrent writers reach the log in the order of their offsets.
 //
 //@ func leaderController.write(lc, ctx, requestSupplier, cb)
 //@ property C07 C08
+//@ critical NextOffset .. AppendAndSync
 //@ requires lc.writeLatencyHisto != nil && cb != nil && requestSupplier != nil && lc.log != nil
 //@ requires lc.status == 3 ==> lc.quorumAckTracker != nil && lc.wal != nil && walInv(as(lc.wal, *wal.wal)) && as(lc.quorumAckTracker, *quorumAckTracker).nextOffset.v < 4611686018427387902
 //@ callback requestSupplier modifies nothing
